@@ -47,6 +47,12 @@ type Rec struct {
 
 // canon strips the random digits of temporary file names.
 func canon(p string) string {
+	if a := vos.Alias(p); a != p {
+		return a
+	}
+	if a := vos.Alias(filepath.Base(p)); a != filepath.Base(p) {
+		return filepath.Join(filepath.Dir(p), a)
+	}
 	if i := strings.Index(p, ".tmp"); i >= 0 {
 		j := i + 4
 		for j < len(p) && p[j] >= '0' && p[j] <= '9' {
